@@ -277,8 +277,8 @@ def partitions(ck, an):
              "the minimum gap is min over consecutive timestep differences, in seconds", f"_min_timesteps_diff returns {rets}", construct="min gap")
     for attr in ("_partition_latent", "_partition_nonlatent"):
         st = [x for x in assigns_to_attr(fa, attr)]
-        vals = [ast.unparse(x.value) for x in st if isinstance(x, ast.Assign)]
-        ck.check(vals == ["defaultdict(list)"], "IDIOM", "S2.partitions-default-empty", subj, fa.f.loc, f"{attr} is a fresh defaultdict(list): a step without events of that kind yields an empty batch",
+        vals = [fa.sym.canon(x.value, fa.node_of(x).id) for x in st if isinstance(x, ast.Assign)]
+        ck.check(vals in (["defaultdict(list)"], ["collections.defaultdict(list)"]), "IDIOM", "S2.partitions-default-empty", subj, fa.f.loc, f"{attr} is a fresh defaultdict(list): a step without events of that kind yields an empty batch",
                  f"{attr} = {vals}", construct=f"self.{attr} = defaultdict(list)")
     # every call rebuilds the partitions from the current events: no early return before the loop
     builds = [x for x in assigns_to_attr(fa, "_partition_latent") + assigns_to_attr(fa, "_partition_nonlatent")]
